@@ -19,6 +19,11 @@ CHECKS = {
     note="Trusted: Lean kernel; translate/effects.py (pattern-based AST walk, cross-checked with nm); C++ const semantics and std::call_once/static-init semantics (one atomic step that happens-before later uses); ThreadSanitizer's happens-before analysis covers all schedules of the accesses that were executed. Performance/starvation and I/O interleaving on std::cerr are outside the model.",
     technique="Lean 4 proof of schedule independence (Bernstein) + decide over a translator-extracted effect table + ThreadSanitizer correspondence",
     design="3/C10"),
+ "C14": dict(
+    text="PARTIAL. Lean theorems (Props/C14.lean) on the structure of the evaluators: the regimes partition the arguments; the table row exists and the Taylor step is at most half a spacing; the all-orders and the single-order evaluator compute the same thing in the large-argument and table regimes and known closed forms (which differ for l>=2, below 1e-7^l) in the small regime; both large-argument loops are the asymptotic polynomial; the derivative tables use the coefficients of the Bessel recurrence; the Taylor remainder budget holds for TAYLOR_CUT and the table size as they are now (constants re-extracted every run). The Lean model, run at Float in the compiled driver, agrees BIT FOR BIT with the real BesselFunction on table rows, both evaluators and upper_bound at grid nodes, midpoints, both sides of 1e-7 and 16 and random arguments for l <= 15 - so the theorems are about the function the code computes. Accuracy itself (abs 1e-12 against mpmath's I_{l+1/2} at 40 digits) is checked on the implementation, not proved.",
+    note="Not proved: that the series/recurrence/asymptotic form ARE e^{-z} i_l(z) and the derivative bound in the budget (Mathlib has no Bessel functions); rounding. Trusted: Lean kernel, translate/constants.py, harness/corr_bessel.cpp, oracle/bessel.py (mpmath), the platform libm's exp being the same in both drivers.",
+    technique="Lean 4 structural theorems + bitwise model/implementation correspondence at Float + mpmath oracle",
+    design="3/C14"),
  "C16": dict(
     text="Kernel-checked (decide +kernel, no axioms) over the WHOLE shipped table - 6 sets, 121 element definitions, 2144 primitives, exact decimals: every XML file is exactly the MOLPRO-convention reading of its raw source (elements, ncore, maxl, per shell lval/nexp, per primitive n/x/c; local part first at l=maxl; spin-orbit blocks dropped) and is well formed for the build. The data, the pow_n functions and the constants are regenerated from /repo on every run. Every shipped element is loaded by the real addECP_from_file and compared with the Lean loader/evaluator model (fields exact, evaluator 1e-13 at 10 radii per l) and, independently, with a Python oracle built straight from the raw files.",
     note="Trusted: Lean kernel; translate/ecpdata.py (own MOLPRO tokenizer, xml.etree), powfns.py, constants.py; harness/corr_ecp.cpp; pugixml/stod deliver the attribute values correctly rounded; std::sort modelled as any l-ordered permutation.",
